@@ -16,10 +16,10 @@ def plan(tier):
     pl.level = "other"
     for a in ("fileinto", "redirect", "reject"):
         for d in (False, True):
-            pl.units.append(U("RB.action.%s.%s" % (a, "disabled" if d else "enabled"), "contracts.readback", "h_action_readback", (a, d)))
+            pl.units.append(U("RB.action.%s.%s" % (a, "disabled" if d else "enabled"), "contracts.readback", "h_action_readback", (a, d), native_ok=True, sample_models=True))
     for m in (":is", ":contains", ":matches", ":notis", ":notcontains", ":notmatches"):
         for d in (False, True):
-            pl.units.append(U("RB.header%s.%s" % (m, "disabled" if d else "enabled"), "contracts.readback", "h_header_readback", (m, d)))
+            pl.units.append(U("RB.header%s.%s" % (m, "disabled" if d else "enabled"), "contracts.readback", "h_header_readback", (m, d), native_ok=True, sample_models=True))
     pl.bounded = [bounded_readback]
     pl.functions = [("sievelib.factory", "FiltersSet.get_filter_conditions"), ("sievelib.factory", "FiltersSet.get_filter_actions"),
                     ("sievelib.factory", "FiltersSet.get_filter_matchtype"), ("sievelib.factory", "FiltersSet.getfilter"),
